@@ -21,7 +21,7 @@ CIVIL_LEMMAS = ['lemma_div146097', 'lemma_div400', 'lemma_fdshift4', 'lemma_fdsh
                 'lemma_quot_bounds', 'lemma_shift400', 'lemma_nday_lift', 'lemma_ordbound', 'lemma_valid28', 'lemma_dm_range', 'lemma_split1', 'lemma_split2', 'lemma_dm_small', 'lemma_carry', 'lemma_validday', 'lemma_nmonpre', 'lemma_dm_lin', 'lemma_trunc', 'lemma_dm_mono', 'lemma_validrepr', 'lemma_ordy_mono', 'lemma_dayord_lex', 'lemma_udiff', 'lemma_fits',
                 'lemma_I_anchor', 'lemma_I_sk', 'lemma_I_period', 'lemma_I_leapidx', 'lemma_I_fmstep', 'lemma_I_yearstep',
                 'lemma_I_centstep', 'lemma_I_4step', 'lemma_I_monthstep', 'lemma_I_day',
-                'lemma_dd', 'lemma_dd3', 'lemma_c4', 'lemma_q400']
+                'lemma_dd', 'lemma_dd3', 'lemma_c4', 'lemma_q400', 'lemma_dist400']
 
 
 def civil_spec_lemmas():
